@@ -2,6 +2,7 @@ package main
 
 import (
 	"fmt"
+	"os"
 	"go/token"
 	"go/types"
 	"strings"
@@ -165,6 +166,9 @@ func (v *Verifier) unlock(s *State, mu *Value, write bool, pos token.Pos) {
 		}
 	}
 	if idx < 0 {
+		if os.Getenv("GOVC_DEBUG") != "" {
+			fmt.Fprintf(os.Stderr, "DEBUG unlock key=%s held=%v mu=%v LV=%v\n", key, s.held, mu.L, mu.LV)
+		}
 		v.addOb(s, "lock", pos, False, "unlock of "+field+" which is not held on this path", nil)
 		return
 	}
